@@ -97,6 +97,25 @@ def gen_ops(g, rng, tier, only=None):
         for r in rw:
             dom = args[(cname, r["fld"])][0]
             pools[r["fld"]] = value_pool(rng, r, dom, exhaustive_bits, nrand)
+        # (0) every representable value of narrow fields (a sample for wide ones) from complementary prior images,
+        #     so that each value is written over a field holding all-zeros, all-ones and random bits
+        for r in rw:
+            w, sc = r["width"], r["scale"]
+            if r["kind"] == "bytes":
+                reps = pools[r["fld"]][:4]
+            else:
+                rep_max = (2 ** w - 1) // sc
+                if rep_max < 16:
+                    reps = [str(v) for v in range(rep_max + 1)]
+                else:
+                    reps = sorted({0, 1, rep_max, rep_max - 1, rep_max // 2, rep_max // 2 + 1} | {rng.randint(0, rep_max) for _ in range(10)})
+                    reps = [str(v) for v in reps]
+            a = bytes(rng.randrange(256) for _ in range(L))
+            for img in (a.hex(), bytes(x ^ 0xff for x in a).hex(), "00" * L, "ff" * L):
+                ops.append(f"init {cname} {img} {mh}")
+                seq = list(reps)
+                rng.shuffle(seq)
+                ops += [f"set {r['fld']} {v}" for v in seq]
         # (1) every value of the pool of every row, from random prior images
         for r in rw:
             vals = list(pools[r["fld"]])
@@ -169,7 +188,8 @@ def run(chk):
                     total[a] = total.get(a, 0) + b
                 start = end
     for p in problems:
-        if not (total.get("spec", 0) + total.get("fault", 0)):
+        # a theorem no longer checks: the run above was the search for a concrete failing input; known findings do not count
+        if not any(not nofail for (_, _, nofail) in chk.violations):
             chk.violation("proof obligation no longer checks: " + p[:1500], ["theorem-or-audit-failure", p[:4000]], nofail=True)
     rows = g["rows"]
     chk.extra["rows_in_table"] = len(rows)
